@@ -231,7 +231,7 @@ struct CaseResult {
     digest: String,
 }
 
-fn run_behaviour(go: compiler::go::goast::File, seed: u64) -> (String, String, usize) {
+pub fn run_behaviour(go: compiler::go::goast::File, seed: u64) -> (String, String, usize) {
     let gp = Arc::new(goi::ProgData::new(go));
     let out = gort::run_go(&gp, Strategy::RoundRobin, seed, vec![], 200_000);
     let stop = match &out.stop {
@@ -451,6 +451,7 @@ pub fn run(opts: &Opts) -> i32 {
     harness::print_run_digest(&results.iter().map(|r| format!("{}{}", r.digest, r.violations.len())).collect::<Vec<_>>());
     let mut violations: Vec<Violation> = Vec::new();
     let mut multi = 0u64;
+    let mut fixture_sampled = false;
     for r in results {
         ev.evaluations += r.procs;
         if r.multi {
@@ -465,6 +466,26 @@ pub fn run(opts: &Opts) -> i32 {
         }
         violations.extend(r.violations);
     }
+    // stores written by the earlier release of the compiler (c14fix.rs)
+    let (fx, nfix) = crate::props::c14fix::phase(opts, harness::VERIF_DIR);
+    let mut fixture_procs = 0u64;
+    for r in fx {
+        ev.evaluations += r.procs;
+        fixture_procs += r.procs;
+        for (k, v) in r.probes {
+            ev.probe(k, v);
+        }
+        if let Some(smp) = r.sample {
+            if !fixture_sampled {
+                ev.sample(smp);
+                fixture_sampled = true;
+            }
+        }
+        violations.extend(r.violations);
+    }
+    ev.extra.insert("old_release_fixture_projects".into(), json!(nfix));
+    ev.extra.insert("old_release_fixture_processes".into(), json!(fixture_procs));
+    ev.fault("history:store-written-by-the-earlier-release(all-old|subset-rebuilt-in-place)", fixture_procs);
     // minimise: drop `main` print statements (and with them whole call trees) while the same
     // class of violation persists under the same schedule
     if !opts.dry {
@@ -497,6 +518,9 @@ pub fn run(opts: &Opts) -> i32 {
 
 pub fn replay(file: &Value) -> bool {
     let r = &file["replay"];
+    if r["kind"] == "c14-fixture" {
+        return crate::props::c14fix::replay(file);
+    }
     let files = files_from_json(&r["files"]);
     let sb = Sandbox::new("c14replay").expect("sandbox");
     let case = Case {
@@ -535,7 +559,7 @@ fn shrink_violation(sb: &Sandbox, v: &mut Violation) {
     let r = v.replay.clone();
     let mut files = files_from_json(&r["files"]);
     let class = r["class"].as_str().unwrap_or("").to_string();
-    if class == "order-dependent-artifacts" {
+    if class == "order-dependent-artifacts" || r["kind"] == "c14-fixture" {
         return;
     }
     let sched = r["schedule_seed"].as_u64().unwrap_or(0);
